@@ -1857,6 +1857,469 @@ def check_data_sources(res, tier):
     return n
 
 
+# ---------------------------------------------------------------------------------------------------------------------
+# EFFECTS: callables whose side effect CHANGES a data source (gives an object an attribute, binds / rebinds / removes a
+# key of a mapping) while the template is being rendered - between two conditionals, inside the chosen body of one, or in
+# the middle of one expression.  Reference: the property's rule over a plain-Python state (a dict per data source): every
+# conditional is a new evaluation over the sources as they are THEN; a named condition's value is kept for its own
+# conditional only; an expression's names are resolved when its evaluation starts and the expression is then evaluated
+# once, left to right, by Python itself.
+
+EFF_TARGETS = [('client', 'object'), ('with', 'object'), ('in', 'object'), ('mapping', 'dict'), ('withmap', 'dict'),
+               ('inmap', 'dict')]
+EFF_FIRST = ['if', 'unless', 'elif', 'xguard', 'none']
+EFF_SETTERS = ['call', 'callx', 'ifn', 'unlessn', 'late', 'late-and', 'late-call', 'inbody']
+EFF_RETESTS = ['if', 'unless', 'elif', 'x', 'twice']
+
+
+class EffObject:
+    pass
+
+
+class EffRaise(Exception):
+    def __init__(self, cls):
+        Exception.__init__(self, cls)
+        self.cls = cls
+
+
+def eff_is(v, tag):
+    return isinstance(v, tuple) and v[0] == tag
+
+
+class EffOracle:
+    def __init__(self, prog):
+        self.prog = prog
+        self.state = {S['id']: dict(S['names']) for S in prog['sources']}
+        self.events = []
+        self.out = []
+
+    def fn(self, f):
+        spec = self.prog['fns'][f]
+
+        def call():
+            self.events.append(f)
+            for sid, n, op in spec['effects']:
+                if op[0] == 'set':
+                    self.state[sid][n] = op[1]
+                else:
+                    self.state[sid].pop(n, None)
+            return spec['ret']
+        return call
+
+    def lookup(self, n, stack):
+        for fr in reversed(stack):
+            d = self.state[fr] if isinstance(fr, int) else fr
+            if n in d:
+                return True, d[n]
+        return False, None
+
+    def value(self, n, stack):
+        found, v = self.lookup(n, stack)
+        if found and eff_is(v, 'fn'):
+            v = self.fn(v[1])()
+        return found, v
+
+    def evalx(self, text, used, stack):
+        env = {}
+        for n in used:
+            found, v = self.lookup(n, stack)
+            if found:
+                env[n] = self.fn(v[1]) if eff_is(v, 'fn') else v
+        try:
+            return eval(text, {'__builtins__': {}}, env)
+        except NameError:
+            raise EffRaise('NameError')
+        except TypeError:
+            # (inside the chosen body of a conditional on a callable's NAME the name stands for the kept result)
+            raise EffRaise('TypeError')
+
+    def cond(self, src, stack):
+        if src[0] == 'n':
+            found, v = self.value(src[1], stack)
+            if not found:
+                return False
+            stack[-1][src[1]] = v
+            return bool(v)
+        return bool(self.evalx(src[1], src[2], stack))
+
+    def render(self, blocks, stack):
+        for b in blocks:
+            k = b[0]
+            if k == 'lit':
+                self.out.append(b[1])
+            elif k == 'var':
+                found, v = self.value(b[1], stack)
+                if not found:
+                    raise EffRaise('KeyError')
+                self.out.append(str(v))
+            elif k in ('cond', 'unless', 'call'):
+                stack.append({})
+                try:
+                    if k == 'cond':
+                        for src, body in b[1]:
+                            if self.cond(src, stack):
+                                self.render(body, stack)
+                                break
+                        else:
+                            if b[2] is not None:
+                                self.render(b[2], stack)
+                    elif k == 'unless':
+                        if not self.cond(b[1], stack):
+                            self.render(b[2], stack)
+                    else:
+                        self.cond(b[1], stack)
+                finally:
+                    stack.pop()
+            elif k == 'push':
+                stack.append(b[1])
+                try:
+                    self.render(b[2], stack)
+                finally:
+                    stack.pop()
+            elif k == 'try':
+                mark, depth = len(self.out), len(stack)
+                try:
+                    self.render(b[1], stack)
+                except EffRaise:
+                    del self.out[mark:]
+                    assert len(stack) == depth
+                    self.render(b[2], stack)
+            else:
+                raise ValueError(k)
+
+
+def eff_predict(prog):
+    o = EffOracle(prog)
+    try:
+        o.render(prog['blocks'], [S['id'] for S in prog['sources'] if S['pos'] in ('mapping', 'client', 'kw')])
+    except EffRaise as e:
+        return 'raised ' + e.cls, o.events
+    return ''.join(o.out), o.events
+
+
+def eff_source(prog, blocks, syntax, rs):
+    def tag(name, args='', end=False):
+        if syntax == 'dtml':
+            return '</dtml-%s>' % name if end else '<dtml-%s%s>' % (name, ' ' + args if args else '')
+        return '<!--#/%s-->' % name if end else '<!--#%s%s-->' % (name, ' ' + args if args else '')
+
+    def target(s):
+        if s[0] == 'n':
+            return s[1] if rs.random() < 0.8 else 'name=' + s[1]
+        return '"%s"' % s[1] if rs.random() < 0.6 else 'expr="%s"' % s[1]
+
+    def sub(bs):
+        return eff_source(prog, bs, syntax, rs)
+
+    out = []
+    for b in blocks:
+        k = b[0]
+        if k == 'lit':
+            out.append(b[1])
+        elif k == 'var':
+            out.append(tag('var', b[1]))
+        elif k == 'cond':
+            for i, (src, body) in enumerate(b[1]):
+                out.append(tag('elif' if i else 'if', target(src)) + sub(body))
+            if b[2] is not None:
+                out.append(tag('else') + sub(b[2]))
+            out.append(tag('if', end=True))
+        elif k == 'unless':
+            out.append(tag('unless', target(b[1])) + sub(b[2]) + tag('unless', end=True))
+        elif k == 'call':
+            out.append(tag('call', target(b[1])))
+        elif k == 'push':
+            S = [S for S in prog['sources'] if S['id'] == b[1]][0]
+            name = 'with' if S['pos'].startswith('with') else 'in'
+            out.append(tag(name, S['ref'] + (' mapping' if S['kind'] == 'dict' else '')) + sub(b[2]) + tag(name, end=True))
+        elif k == 'try':
+            out.append(tag('try') + sub(b[1]) + tag('except') + sub(b[2]) + tag('try', end=True))
+    return ''.join(out)
+
+
+def eff_run_real(prog, source):
+    from DocumentTemplate import HTML
+    events = []
+    real = {S['id']: (EffObject() if S['kind'] == 'object' else {}) for S in prog['sources']}
+
+    def mk(f):
+        spec = prog['fns'][f]
+
+        def call():
+            events.append(f)
+            for sid, n, op in spec['effects']:
+                tgt = real[sid]
+                if isinstance(tgt, dict):
+                    if op[0] == 'set':
+                        tgt[n] = op[1]
+                    else:
+                        tgt.pop(n, None)
+                elif op[0] == 'set':
+                    setattr(tgt, n, op[1])
+                elif hasattr(tgt, n):
+                    delattr(tgt, n)
+            return spec['ret']
+        return call
+
+    args = {'client': None, 'mapping': {}, 'kw': {}}
+    for S in prog['sources']:
+        for n, v in S['names'].items():
+            if eff_is(v, 'fn'):
+                v = mk(v[1])
+            elif eff_is(v, 'ref'):
+                v = [real[v[1]]] if v[2] else real[v[1]]
+            if S['kind'] == 'object':
+                setattr(real[S['id']], n, v)
+            else:
+                real[S['id']][n] = v
+        if S['pos'] in args:
+            args[S['pos']] = real[S['id']]
+    try:
+        return HTML(source)(args['client'], args['mapping'], **args['kw']), events
+    except Exception as e:  # noqa
+        return 'raised ' + type(e).__name__, events
+
+
+class EffGen:
+    """a namespace (lowest first: mapping argument, client object, keyword arguments, then pushed sources) and the callables
+    over it"""
+
+    def __init__(self, r):
+        self.r = r
+        self.sources = []
+        self.fns = {}
+
+    def source(self, pos, kind, names):
+        S = {'id': len(self.sources), 'pos': pos, 'kind': kind, 'names': names}
+        if pos not in ('mapping', 'client', 'kw'):
+            S['ref'] = 'src%d' % S['id']
+        self.sources.append(S)
+        return S
+
+    def fn(self, prefix, ret, effects=()):
+        f = '%s%d' % (prefix, len(self.fns) + 1)
+        self.fns[f] = {'ret': ret, 'effects': list(effects)}
+        return f
+
+    def stack(self, target, low=None, extra=None):
+        """the sources; returns (target source, pushed ids in order).  low: {name: value} placed in the mapping argument
+        (below every other source)"""
+        r = self.r
+        pos, kind = target
+        extra = r.random() < 0.4 if extra is None else extra
+        T = None
+        if pos == 'mapping' or low or r.random() < 0.5:
+            S = self.source('mapping', 'dict', dict({'unused': 1}, **(low or {}) if pos != 'mapping' else {}))
+            T = S if pos == 'mapping' else T
+        if pos == 'client' or r.random() < 0.5:
+            S = self.source('client', 'object', {})
+            T = S if pos == 'client' else T
+        self.kw = self.source('kw', 'dict', {})
+        pushes = [] if T is not None else [target]
+        if extra:
+            pushes.insert(r.randrange(len(pushes) + 1), r.choice(EFF_TARGETS[1:3] + EFF_TARGETS[4:]))
+        pushed = []
+        for p in pushes:
+            S = self.source(p[0], p[1], {})
+            self.kw['names'][S['ref']] = ('ref', S['id'], p[0].startswith('in'))
+            pushed.append(S['id'])
+            if p is target:
+                T = S
+        return T, pushed
+
+    def prog(self, blocks, pushed):
+        r = self.r
+        clients = [S for S in self.sources if S['pos'] == 'client']
+        home = clients[0] if clients and r.random() < 0.4 else self.kw
+        for f in self.fns:
+            home['names'][f] = ('fn', f)
+        for sid in reversed(pushed):
+            blocks = [['push', sid, blocks]]
+        return {'sources': self.sources, 'fns': self.fns, 'blocks': blocks}
+
+
+def eff_test(form, n, tag=''):
+    """one conditional on the name n (zz: defined nowhere)"""
+    ref = [['var', n]]
+    if form == 'if':
+        return [['cond', [(('n', n), [['lit', tag + 'T[']] + ref + [['lit', ']']])], [['lit', tag + 'F']]]]
+    if form == 'unless':
+        return [['unless', ('n', n), [['lit', tag + 'U']]], ['lit', '.']]
+    if form == 'elif':
+        return [['cond', [(('n', 'zz'), [['lit', 'A']]), (('n', n), [['lit', tag + 'B:']] + ref)], [['lit', tag + 'E']]]]
+    if form in ('x', 'xguard'):
+        # an expression on the name: an error where the name is not defined, so the template guards it
+        return [['try', [['cond', [(('x', n, [n]), [['lit', tag + 'X']])], [['lit', tag + 'Y']]]], [['lit', tag + 'undefined']]]]
+    if form == 'twice':
+        return [['cond', [(('n', 'zz'), [['lit', 'A']]), (('n', n), [['lit', tag + 'B']]), (('n', n), [['lit', 'B2']])],
+                 [['lit', tag + 'E']]], ['unless', ('n', n), [['lit', tag + 'U']]]]
+    return [['lit', tag + '-']]
+
+
+def eff_setter(form, f, t, n, retest, guard):
+    """the callable f (whose side effect changes n) is evaluated; t: a callable that only counts"""
+    late = None
+    if form == 'call':
+        bs = [['call', ('n', f)]]
+    elif form == 'callx':
+        bs = [['call', ('x', '%s()' % f, [f])]]
+    elif form == 'ifn':
+        bs = [['cond', [(('n', f), [['lit', 'c']])], [['lit', 'd']]]]
+    elif form == 'unlessn':
+        bs = [['unless', ('n', f), [['lit', 'u']]]]
+    elif form == 'late':
+        late = ('x', '%s() or %s() or %s' % (t, f, n), [t, f, n])
+        bs = [['cond', [(('n', 'zz'), [['lit', 'N']]), (late, [['lit', 'L']])], [['lit', 'M']]]]
+    elif form == 'late-and':
+        late = ('x', 'not %s() and not %s() and %s' % (t, f, n), [t, f, n])
+        bs = [['unless', late, [['lit', 'L']]]]
+    elif form == 'late-call':
+        late = ('x', '%s() or %s() or %s' % (t, f, n), [t, f, n])
+        bs = [['call', late]]
+    else:
+        # inside the chosen body of a conditional on n itself (there the kept value goes on being used), or its else body
+        inner = [['call', ('n', f)], ['lit', '/']] + retest
+        return [['cond', [(('n', n), [['lit', 'in:']] + [['var', n]] + inner + [['var', n]])], [['lit', 'else:']] + inner]]
+    if late is not None and guard:
+        bs = [['try', bs + [['lit', 'done']], [['lit', 'undefined']]]]
+    return bs
+
+
+def gen_eff_systematic(r, tier):
+    """the data source that is changed (client object, dtml-with object, dtml-in item; mapping argument, dtml-with / dtml-in
+    mapping) x the name's state there before (objects: not there; mappings: also false / true) x the name also defined in a
+    source below or not x the first look at the name x how the changing callable is evaluated x the new state x the
+    second look"""
+    combos = []
+    for target in EFF_TARGETS:
+        for init in ([None] if target[1] == 'object' else [None, 0, 'a']):
+            for low in (False, True):
+                if low and target[0] == 'mapping':
+                    continue
+                for first in EFF_FIRST:
+                    for setter in EFF_SETTERS:
+                        for new in (('set', 'v'), ('set', 0), ('set', ''), ('del',)):
+                            if new == ('del',) and init is None:
+                                continue
+                            for retest in EFF_RETESTS:
+                                combos.append((target, init, low, first, setter, new, retest))
+    if tier == 'quick':
+        combos = r.sample(combos, 2500)
+    for target, init, low, first, setter, new, retest in combos:
+        g = EffGen(r)
+        T, pushed = g.stack(target, {'n': 'low'} if low else None)
+        if init is not None:
+            T['names']['n'] = init
+        t = g.fn('t', 0)
+        f = g.fn('s', r.choice([0, '', None]) if setter.startswith('late') else r.choice([0, 1, '', 'r', None]),
+                 [(T['id'], 'n', new)])
+        blocks = (eff_test(first, 'n', '1') + [['lit', '|']]
+                  + eff_setter(setter, f, t, 'n', eff_test(retest, 'n', 'i'), r.random() < 0.5) + [['lit', '|']]
+                  + eff_test(retest, 'n', '2'))
+        yield g.prog(blocks, pushed), ('effects', target[0], repr(init), low, first, setter, new[0], retest)
+
+
+def gen_eff_random(r):
+    """2 names over a random stack, 1..3 changing callables with 1..2 effects each, 1..2 counting ones; a sequence of 3..7
+    conditionals / calls / guarded groups on them"""
+    g = EffGen(r)
+    target = r.choice(EFF_TARGETS)
+    names = ['n', 'm']
+    low = {n: r.choice(['low', 0]) for n in names if r.random() < 0.3}
+    T, pushed = g.stack(target, low)
+    others = [S for S in g.sources if S['kind'] == 'dict' and S['pos'] != 'kw' and S is not T]
+    for n in names:
+        if T['kind'] == 'dict' and r.random() < 0.4:
+            T['names'][n] = r.choice([0, 1, '', 'a'])
+    ticks = [g.fn('t', r.choice([0, 0, 1, '', 'r'])) for _ in range(r.randint(1, 2))]
+    setters = []
+    taken = set()
+    for _ in range(r.randint(1, 3)):
+        effects = []
+        for _ in range(r.randint(1, 2)):
+            S = T if not others or r.random() < 0.7 else r.choice(others)
+            n = r.choice(names)
+            if S['kind'] == 'object':
+                # (an object's attribute, once it has been looked up with success, is kept for the rendering by the
+                # library: known finding C09-instance-attribute-kept; objects only GAIN a name here, once)
+                if (S['id'], n) in taken:
+                    continue
+                taken.add((S['id'], n))
+                effects.append((S['id'], n, ('set', r.choice([1, 'v', 0, '']))))
+            else:
+                effects.append((S['id'], n, r.choice([('set', 1), ('set', 'v'), ('set', 0), ('set', ''), ('del',)])))
+        setters.append(g.fn('s', r.choice([0, 0, 1, '', 'r', None]), effects))
+    fns = ticks + setters
+
+    def expr():
+        atoms = []
+        used = []
+        for _ in range(r.randint(1, 4)):
+            c = r.random()
+            a = r.choice(fns) if c < 0.6 else r.choice(names)
+            used.append(a)
+            atoms.append(('%s()' % a if c < 0.6 else a) if r.random() < 0.75 else ('not %s()' % a if c < 0.6 else 'not ' + a))
+        return ('x', r.choice([' or ', ' and ']).join(atoms), used)
+
+    def src():
+        c = r.random()
+        if c < 0.4:
+            return ('n', r.choice(names))
+        if c < 0.6:
+            return ('n', r.choice(fns))
+        return expr()
+
+    def seq(depth, k):
+        bs = []
+        for i in range(k):
+            c = r.random()
+            body = lambda: ([['lit', '%d%d' % (depth, i)]] + [['var', n] for n in names if r.random() < 0.25]  # noqa
+                            + (seq(depth + 1, r.randint(1, 2)) if depth < 2 and r.random() < 0.35 else []))
+            if c < 0.4:
+                b = [['cond', [(src(), body()) for _ in range(r.randint(1, 3))], body() if r.random() < 0.6 else None]]
+            elif c < 0.55:
+                b = [['unless', src(), body()]]
+            elif c < 0.85:
+                b = [['call', r.choice([('n', r.choice(setters)), expr(), ('n', r.choice(fns))])]]
+            else:
+                b = eff_test(r.choice(EFF_RETESTS), r.choice(names), 'r')
+            if r.random() < 0.6:
+                b = [['try', b, [['lit', 'h']] + (eff_test(r.choice(EFF_RETESTS[:3]), r.choice(names), 'h')
+                                                   if r.random() < 0.4 else [])]]
+            bs += b + [['lit', '|']]
+        return bs
+
+    return g.prog(seq(0, r.randint(3, 7)), pushed), ('effects-random', target[0])
+
+
+def check_effects(res, tier):
+    r = common.rng('C09-effects')
+    progs = list(gen_eff_systematic(r, tier))
+    for _ in range(1500 if tier == 'quick' else 30000):
+        progs.append(gen_eff_random(r))
+    for prog, key in progs:
+        exp = eff_predict(prog)
+        source = eff_source(prog, prog['blocks'], r.choice(['dtml', 'dtml', 'ssi']), r)
+        got = eff_run_real(prog, source)
+        res.evaluations += 1
+        res.nt(key)
+        res.count('form=effects-on-data-sources')
+        res.count('effects:%s' % key[1])
+        res.count('effects-outcome:%s' % ('raised' if exp[0].startswith('raised ') else 'rendered'))
+        if key[0] == 'effects':
+            res.count('effects-setter:%s' % key[5])
+        if (got[0], list(got[1])) != (exp[0], list(exp[1])):
+            res.oracle_fail.append({
+                'case': {'source': source, 'class': 'HTML', 'family': 'effects-on-data-sources',
+                         'data_sources (lowest first; pushed ones by dtml-with / dtml-in)': [
+                             {'at': S['pos'], 'kind': S['kind'], 'id': S['id'], 'ref': S.get('ref'),
+                              'names': {n: repr(v) for n, v in S['names'].items()}} for S in prog['sources']],
+                         'callables (result; effects = (data source id, name, change))': {
+                             f: repr((spec['ret'], spec['effects'])) for f, spec in prog['fns'].items()}},
+                'what': 'expected %r with callable invocations %r; got %r with %r' % (exp[0], exp[1], got[0], got[1])})
+    return len(progs)
+
+
 def run(res, tier, have_driver):
     r = common.rng('C09')
     res.rule = ('dtml-if chains of 1..5 conditions (+else), dtml-unless, dtml-call; conditions = names bound to plain true/false '
@@ -1915,6 +2378,22 @@ def run(res, tier, have_driver):
                  'object) that do not have the name, and the name defined nowhere; random chains of 1..5 conditions over 4 names '
                  'spread over such stacks; 3 syntaxes; expected text + ordered log of callable invocations and of evaluations by '
                  'logging sources' % (nds, len(DS_VALUES)))
+    neff = check_effects(res, tier)
+    res.rule += ('.  EFFECTS ON DATA SOURCES (real classes against a plain-Python reference holding one dict per data source): '
+                 '%d programs in which a callable evaluated by the template CHANGES a data source during the rendering: the '
+                 'changed source = client object / dtml-with object / dtml-in item (gains an attribute) or mapping argument / '
+                 'dtml-with mapping / dtml-in mapping (a key is bound, rebound to a true / false value, removed) x the name\'s '
+                 'state there before x the name also defined in a source below or not x first look at the name (if with '
+                 'reference, unless, elif after an undefined name, guarded expression, none) x how the callable is evaluated '
+                 '(dtml-call name / "f()", as named condition of if / unless, in the middle of an expression that then uses '
+                 'the name: "t() or f() or n", "not t() and not f() and n" as elif / unless / dtml-call argument, guarded by '
+                 'dtml-try or not, inside the chosen / else body of a conditional on the name itself with references before '
+                 'and after) x second look (if, unless, elif, expression, the name twice in one chain); random sequences of '
+                 '3..7 conditionals / calls / guarded groups over 2 names, 1..3 changing and 1..2 counting callables (living '
+                 'in the keyword arguments or on the client object) with or / and expressions of 1..4 calls and names; '
+                 'expected text (or the class of the error) + ordered log of callable invocations: each conditional '
+                 'evaluates over the sources as they are then, a named condition\'s value is kept inside its own conditional '
+                 'only, an expression is evaluated once from left to right over the names as resolved at its start' % neff)
     res.oracle_fail.sort(key=lambda f: len(f['case']['source']))      # the replay shows the shortest failing input
     res.exhaustive = False
     for i in (0, len(runs) // 2, len(runs) - 1):
@@ -1928,6 +2407,9 @@ def run(res, tier, have_driver):
                         'with the oracle only (the model\'s callables are constant)',
                         'the model interprets the abstract program; that the spellings (syntaxes, else NAME, stand-alone else) '
                         'compile to it is observed on the real classes through the oracle, and stated by C06 / C07 for the parser model',
+                        'effects on data sources: an OBJECT source only gains a name, once (the library keeps an attribute '
+                        'that was looked up with success for the rest of the rendering: known finding C09-instance-attribute-kept); '
+                        'mapping sources change freely; values are ints / strings / None',
                         'a stand-alone `else NAME` block is not generated where an enclosing if / in block is on the same name or '
                         'expression (there the documentation leaves open which tag it continues)']
 
@@ -1951,6 +2433,7 @@ def search_more(res, tier):
     restyle(r, items + hist)
     check(res2, items, False, r, hist)
     check_data_sources(res2, tier)
+    check_effects(res2, tier)
     return res2.oracle_fail
 
 
